@@ -66,9 +66,30 @@ pub fn panic_sig(p: &str) -> String {
     };
     let file = loc.rsplit_once(':').map(|x| x.0).unwrap_or(loc);
     let file = file.rsplit_once("/src/").map(|x| x.1).unwrap_or(file);
+    // drop quoted payloads (`...`, '...') so that the signature names the kind of panic only
+    let mut cleaned = String::new();
+    let mut quote: Option<char> = None;
+    for c in msg.chars() {
+        match quote {
+            Some(q) => {
+                if c == q {
+                    quote = None;
+                    cleaned.push('_');
+                }
+            }
+            None => {
+                if c == '`' || c == '\'' {
+                    quote = Some(c);
+                } else {
+                    cleaned.push(c);
+                }
+            }
+        }
+    }
+    let msg = cleaned.as_str();
     let mut out = String::new();
     let mut in_num = false;
-    for c in msg.chars().take(80) {
+    for c in msg.chars().take(70) {
         if c.is_ascii_digit() {
             if !in_num {
                 out.push('N');
